@@ -58,7 +58,17 @@ DecMant == { S("0"), S("1"), S("5"), S("15"), S("1.5"), S("1.50"), S(".5"), S("0
              S("0.0000000000000000000000000001"), S("0.00000000000000000000000000015"), S("0.00000000000000000000000000025"),
              S("0.00000000000000000000000000005"), S("1.0000000000000000000000000000"), S("1.00000000000000000000000000000"),
              S("79228162514264337593543950335.0"), S("100000000000000000000000000000"), S("0.1234567890123456789012345678901234567890") }
+\* integer digits x fractional digits around the reader's thresholds (the 64-bit and 96-bit registers, 28 fractional
+\* digits, the digit that decides rounding)
+RECURSIVE RepL(_, _)
+RepL(t, n) == IF n = 0 THEN <<>> ELSE t \o RepL(t, n - 1)
+DecInts == { <<>>, S("0"), S("7"), S("18446744073709551"), S("1844674407370955160"), S("18446744073709551615"), S("1076305743455"), S("16130996763"),
+             S("7922816251426433759354395033"), S("79228162514264337593543950335"), RepL(S("0"), 30) \o S("7") }
+DecFracs == { S("5"), S("50"), RepL(S("0"), 27) \o S("1"), RepL(S("0"), 27) \o S("15"), RepL(S("0"), 27) \o S("14"), RepL(S("0"), 27) \o S("149"), RepL(S("0"), 27) \o S("05"),
+              RepL(S("9"), 28) \o S("5"), RepL(S("9"), 29), RepL(S("3"), 40), S("61533719722259500"), S("5266692297962427900"), S("9100227436871980000000000000000000000000"),
+              S("12345678901234567890123456785"), S("5") \o RepL(S("0"), 30) }
 DecTexts == { S("d") \o sg \o m : sg \in {<<>>, S("+"), S("-")}, m \in DecMant }
+            \cup { S("d") \o sg \o i \o S(".") \o f : sg \in {<<>>, S("-")}, i \in DecInts, f \in DecFracs }
             \cup { S("d"), S("d."), S("d1."), S("d1e5"), S("d1.5e3"), S("d-"), S("d1.2.3"), S("d1_0"), S("dec"), S("d1x") }
 
 StrPool == { 97, 65, 48, 32, 9, 10, 13, 34, 39, 92, 47, 110, 114, 116, 117, 120, 123, 125, 233, 223, 160, 8203, 12288, 20013,
@@ -144,8 +154,7 @@ Next == IF Family = "chars" THEN Len(txt) < N /\ lay' = lay /\ \E i \in 1..Len(C
         ELSE /\ lay.k = -1
              /\ \E t \in {u \in FamilyTexts : Bucket(u) = lay.b} : txt' = t /\ lay' = Lay0
 
-DecAp(lexeme) == LET np == NumParts(Tail(lexeme)) m == MFromDigits(Digits(np.digits)) IN
-                 IF np.frac <= 28 /\ DFits(m) THEN "scale" ELSE IF DFit(np.s, m, np.frac).exact THEN "exact" ELSE "dec1ulp"
+DecAp(lexeme) == "scale"          \* the reader is transcribed exactly (Decimal.tla, DecFromStr): value AND scale are compared
 
 Complete == Family # "layout" \/ lay.k = Len(LayoutBases[lay.b])
 Result == LET l == Lex(txt) IN
